@@ -897,6 +897,11 @@ class SizedReader:
                 remainder = data[pos:]
                 self.buffer = remainder + self.buffer
                 self.bytes_read -= len(remainder)
+                if remainder:
+                    # read() flags the end of the body as soon as the
+                    # socket is drained; the bytes pushed back here
+                    # are still to be delivered.
+                    self.done = False
                 break
             else:
                 chunks.append(data)
